@@ -186,8 +186,10 @@ PROPS = {
         "assumptions": ["A-TIME: Go time.Time comparisons are by instant", "A-PARSE: the parser's mapping of encoded times to instants"],
     },
     "C04": {
-        "proofs": ["ZlProofs.Props.C04"],
-        "corr": ["framework", "der"],  # der: also carries the CA-classification ops (util/ca.go)
+        # C04Terms: IsServerAuthCert and the CA / S-MIME classification predicates of package util as terms regenerated from their
+        # source (serverAuth_exact, classification_terms_*); Bodies: the evaluator; `bodies` calls the real predicates on every view
+        "proofs": ["ZlProofs.Props.C04", "ZlProofs.Props.C04Terms", "ZlProofs.Props.Bodies"],
+        "corr": ["framework", "der", "bodies"],  # der: also carries the CA-classification ops (util/ca.go)
         "search": [("sweep", "C04")],
         "trusted_base": TB_COMMON,
         "assumptions": ["the scope predicates are modelled over a parsed view (EKU OIDs, policy OIDs, rfc822 names, otherNames)"],
@@ -343,7 +345,7 @@ CLAIMS = {
     "C03": {"technique": "Lean 4 proof of the half-open window + window-grid correspondence + boundary re-dating sweep",
             "text": "checkEffective_spec and no_finding_outside_window are proved for all metadata (zero/non-zero dates, sub-second), all instants and all lint behaviours of all three kinds; boundary exactness at eff, eff-1s, ineff-1s, ineff. Tie: scripted lints at every window position (incl. non-UTC encodings and OCSP without nextUpdate); search: every registered lint at every distinct registry date +-1s on re-dated corpus objects.",
             "note": "Trusted: A-TIME (time.Time compares by instant), the parser's decoding of encoded times (validated on every re-dated object)."},
-    "C04": {"technique": "Lean 4 proof (call-log model of Execute) + scope-view correspondence + direct-call oracle",
+    "C04": {"technique": "Lean 4 proof (call-log model of Execute; scope / classification predicates of package util as terms regenerated from their source, characterised in C04Terms) + scope-view and predicate correspondence + direct-call oracle",
             "text": "scope_gate, inapplicable_NA, execute_only_after_applies, verdict_stands, body_panic_fatal, config_error_fatal hold for every lint, object and configuration; the three scope predicates are modelled over a parsed view and compared with util.IsServerAuthCert / IsEmailProtectionCert / IsCodeSigning through the framework on a grid of EKU / policy / SAN shapes, including re-linting the same object pointer after in-place edits; every real lint is compared with a direct CheckApplies/Execute call on a fresh configured instance.",
             "note": "Trusted: harness; the view abstraction of a certificate."},
     "C05": {
@@ -394,7 +396,7 @@ CLAIMS = {
     "C14": {"technique": "Lean 4 kernel evaluation over regenerated label tables + codec correspondence + JSON round trips",
             "text": "details_roundtrip: encoding/json's string codec is modelled byte for byte (quote with and without HTML escaping, scanner + unquote incl. surrogate pairs) and unquote (quote s) = sanitize s is proved for every byte string — details come back exactly, up to U+FFFD for bytes that are not UTF-8; copy_through_is_decode_encode: EncodeRune (DecodeRune seq) = seq for every well-formed sequence (so the model's copy-through is the real decode/re-encode); labels_injective, status_roundtrip, unknown_label_rejected, out_of_range_not_decodable, struct-tag facts and listing_one_line_per_lint; result_roundtrip_partial with the JSON string codec abstracted. Tie: MarshalJSON/UnmarshalJSON of statuses and sources vs the model; real result sets with hostile details round-tripped (per-byte U+FFFD oracle); WriteJSON decoded line by line.",
             "note": "Partial: encoding/json itself is assumed (A-JSON) and validated, not modelled."},
-    "C16": {"technique": "Lean 4 proofs over Nat (bit length, divisibility, Fermat soundness and completeness) + boundary correspondence",
+    "C16": {"technique": "Lean 4 proofs over Nat (bit length, divisibility, Fermat soundness and completeness), restated on the rule terms regenerated from the source of eleven RSA lints (C16Terms, kernel-decided term identities) + boundary and rule-term correspondence",
             "text": "Each of the thirteen predicates is proved equivalent to its arithmetic meaning for all N, e; modSmallFactor_iff uses kernel-checked coverage of 2..751 by the regenerated prime table; fermat_sound (p*q = n) and fermat_complete for all n and round counts. Tie: kit certificates with chosen (N, e) at every boundary through the real framework, factorisations compared.",
             "note": "A-RSA (parser delivers N, E as encoded, E < 2^63). Mathlib tactics ring/linarith/nlinarith."},
     "C18": {"technique": "Lean 4 kernel evaluation of the regenerated 1.5k-row table + proofs of the lookup/period specification + date-boundary correspondence",
